@@ -296,6 +296,10 @@ func priorInstance(kind, enc string) (st *trie.SlimTrie, held bool) {
 func emptyAnswers(st *trie.SlimTrie, qs [][]byte) (bad string) {
 	defer func() {
 		if r := recover(); r != nil {
+			if _, ok := r.(abortUnit); ok {
+				bad = "a lookup or scan did not return within the step budget (an empty trie answers in a handful of steps)"
+				return
+			}
 			bad = "panic while querying after the rejected load: " + clip(fmt.Sprint(r), 120)
 		}
 	}()
@@ -354,9 +358,18 @@ func emptyAnswers(st *trie.SlimTrie, qs [][]byte) (bad string) {
 	return ""
 }
 
+const panStepCap = "STEPCAP"
+
 func loadVia(st *trie.SlimTrie, entry string, buf []byte) (err error, pan string) {
 	defer func() {
 		if r := recover(); r != nil {
+			if a, ok := r.(abortUnit); ok {
+				pan = panStepCap
+				if a.why != "stepcap" {
+					pan = "ABORT:" + a.why
+				}
+				return
+			}
 			pan = clip(fmt.Sprint(r), 160)
 		}
 	}()
@@ -412,11 +425,15 @@ func executeC07(scn *Scenario) *RunResult {
 	secs := sections(stream)
 
 	// fault-free control (separate configuration): the uncut stream loads.
+	var refSteps int64
 	{
 		st, _ := priorInstance(c.Prior, enc)
 		disk := newDisk()
 		disk.Write("f", stream, func() int { return c.Chunk }, -1)
-		err, pan := loadVia(st, "direct", disk.Read("f"))
+		var err error
+		var pan string
+		ctlBuf := disk.Read("f")
+		refSteps, _ = withStepCap(refLoadCap, func() { err, pan = loadVia(st, "direct", ctlBuf) })
 		res.Counters["control_loads"]++
 		if err != nil || pan != "" {
 			res.Skipped = "control_stream_does_not_load"
@@ -483,7 +500,10 @@ func executeC07(scn *Scenario) *RunResult {
 		if nontrivial {
 			groupDistinct++
 		}
-		err, pan := loadVia(st, entry, durable)
+		var err error
+		var pan string
+		steps, _ := withStepCap(loadCap(refSteps), func() { err, pan = loadVia(st, entry, durable) })
+		res.Steps += steps
 		where := fmt.Sprintf("fault=%s,layout=%s,entry=%s", ft.Kind, layout, entry)
 		desc := fmt.Sprintf("stream %s (%d bytes), prior state %s, ", id, len(stream), c.Prior)
 		if ft.Kind == "cut" {
@@ -492,6 +512,8 @@ func executeC07(scn *Scenario) *RunResult {
 			desc += fmt.Sprintf("version field %q", ft.Version)
 		}
 		switch {
+		case pan == panStepCap:
+			viol = &Violation{Prop: "C07", Oracle: "load-does-not-return", Where: where, Detail: desc + fmt.Sprintf(": Unmarshal did not return within %d steps (loading the whole stream takes %d)", loadCap(refSteps), refSteps)}
 		case pan != "":
 			viol = &Violation{Prop: "C07", Oracle: "panic-on-load", Where: where, Detail: desc + ": Unmarshal panicked: " + pan}
 		case err == nil:
@@ -499,7 +521,13 @@ func executeC07(scn *Scenario) *RunResult {
 		case ft.Kind == "version" && errors.Cause(err) != trie.ErrIncompatible:
 			viol = &Violation{Prop: "C07", Oracle: "wrong-error", Where: where, Detail: desc + ": error is not ErrIncompatible: " + clip(err.Error(), 160)}
 		default:
-			if bad := emptyAnswers(st, c.Queries); bad != "" {
+			var bad string
+			qs, capped := withStepCap(loadCap(refSteps), func() { bad = emptyAnswers(st, c.Queries) })
+			res.Steps += qs
+			if capped && bad == "" {
+				bad = "a lookup or scan did not return within the step budget (an empty trie answers in a handful of steps)"
+			}
+			if bad != "" {
 				viol = &Violation{Prop: "C07", Oracle: "not-empty-after-reject", Where: where, Detail: desc + ": after the rejected load " + bad}
 			}
 		}
